@@ -279,7 +279,9 @@ def c_v2_rails(ctx):
             bad = p
             break
         a = acts[0]
-        ctx.check("C03.c.fail-closed", f.file, f.name, a.text, bad is None,
+        # construct = the awaited action (the name of the variable that receives the result is a spelling)
+        cons = re.sub(r"^\s*\$\w+\s*=\s*", "", a.text)
+        ctx.check("C03.c.fail-closed", f.file, f.name, cons, bad is None,
                   "with the action result None (failed action), every path of rail '%s' ends in abort or an evaluation error" % f.name if bad is None else
                   "rail '%s' PASSES when its action fails: with `$%s = None` the path %s reaches the end of the flow, so the guarded text is approved unchecked" % (
                       f.name, a.target, " > ".join(x.text[:40] for x in bad.steps if x.kind in ("assign", "branch", "if"))), line=a.line)
